@@ -1,9 +1,73 @@
 import PyamgV.Driver.Util
-/-! Driver ops for property C03 (line protocol). Op names are prefixed `c03_`. -/
+import PyamgV.Model.C03Cyc
+/-! Driver ops for property C03 (line protocol). Op names are prefixed `c03_`.
+
+`c03_run <cycle V|W|F> <cpl> <k> <wantM 0|1> <m> (<A> <P> <R> <Qpre> <Qpost>){m} <S> <x0> <b>`
+  m = number of non-coarsest levels (0 = one-level hierarchy), matrices as rows `;`-separated.
+  reply (parts separated by `#`):
+    x1    = one cycle from x0            (`cycT`, the instrumented model of `__solve`; `stepM` if m = 0)
+    xk    = `solveM` with maxiter = k and a residual test that never fires
+    pv    = `precM` applied to b         (model of `aspreconditioner(cycle) @ b`)
+    trace = order of smoother / coarse-solver calls of the one cycle (`pre l`, `post l`, `c`)
+    M     = `mopM` (the textbook operator of this cycle type and cpl as a matrix; `-` if wantM = 0)
+    flags = three 0/1: x1 = cycM result; x1 = x0 + M (b − A x0) exactly; trace = traceM
+`c03_trace <cycle> <cpl> <m>` : `traceM` alone. -/
 namespace PyamgV.Drv.C03
-open PyamgV PyamgV.Drv
+open PyamgV PyamgV.Drv PyamgV.C03
+
+def cycOf (s : String) : Option Cyc :=
+  if s = "V" then some .V else if s = "W" then some .W else if s = "F" then some .F else none
+
+def mat (s : String) : Mat := (parseMat s).toList.map (·.toList)
+def vec (s : String) : Vec := (parseRats s).toList
+def showVec (v : Vec) : String := showRats v.toArray
+def showM (m : Mat) : String := showMat (m.map (·.toArray)).toArray
+
+def showEv : Ev → String
+  | .pre l => s!"pre{l}"
+  | .post l => s!"post{l}"
+  | .coarse => "c"
+def showTrace (t : List Ev) : String := sh (t.map showEv)
+
+def takeLevels : Nat → List String → Option (List Lvl × List String)
+  | 0, rest => some ([], rest)
+  | m + 1, a :: p :: r :: q1 :: q2 :: rest =>
+    (takeLevels m rest).map fun (ls, tl) => (⟨mat a, mat p, mat r, mat q1, mat q2⟩ :: ls, tl)
+  | _, _ => none
+
+def b01 (b : Bool) : String := if b then "1" else "0"
 
 def handle : List String → Option String
+  | "c03_run" :: cs :: cpl :: k :: wantM :: m :: rest => do
+    let c ← cycOf cs
+    let (Ls, tl) ← takeLevels (nat m) rest
+    match tl with
+    | [s, x0s, bs] =>
+      let S := mat s
+      let x0 := vec x0s
+      let b := vec bs
+      let cpl := nat cpl
+      let never : Vec → Bool := fun _ => false
+      let (x1, tr) : Vec × List Ev := match Ls with
+        | [] => (stepM S c cpl [] b x0, [Ev.coarse])
+        | _ :: _ => cycT S c cpl 0 Ls x0 b
+      let xref := stepM S c cpl Ls b x0
+      let xk := solveM S c cpl Ls never (nat k) b x0
+      let pv := precM S c Ls never b
+      let M : Mat := if wantM = "1" then mopM S c cpl Ls else []
+      let A0 : Mat := match Ls with | [] => [] | L :: _ => L.A
+      let aff := match Ls with
+        | [] => true
+        | _ :: _ => wantM != "1" || decide (x1 = vadd x0 (matVec M (vsub b (matVec A0 x0))))
+      let trOk := match Ls with
+        | [] => true
+        | _ :: _ => decide (tr = traceM c cpl 0 Ls.length)
+      some (String.intercalate "#" [showVec x1, showVec xk, showVec pv, showTrace tr, showM M,
+        b01 (decide (x1 = xref)) ++ b01 aff ++ b01 trOk])
+    | _ => none
+  | ["c03_trace", cs, cpl, m] => do
+    let c ← cycOf cs
+    some (showTrace (traceM c (nat cpl) 0 (nat m)))
   | _ => none
 
 end PyamgV.Drv.C03
